@@ -82,6 +82,12 @@ def gen(rng):
         t_ = rng.choice(used_dirs)
         extra.append(['d', t_ + '/files/orphan_abyss' + '/d' * 1100, 0o755])
         kinds.append('orphan-nested-deeper-than-the-recursion-limit')
+        dirs_ = [m_ for m_ in made if m_[0] == t_ and any(s_[0] == 'd' and s_[1] == t_ + '/files/' + m_[1] for s_ in steps)]
+        if dirs_:
+            # ... with a symlink at its bottom that leads to the payload (a directory) of a well-formed entry: whoever enters
+            # it while removing the neighbour empties an entry that the DAYS argument says to keep
+            extra.append(['l', t_ + '/files/orphan_abyss' + '/d' * 1100 + '/lnk', t_ + '/files/' + rng.choice(dirs_)[1]])
+            kinds.append('abyss-holds-a-link-to-a-wellformed-payload')
     nofile = None
     if rng.random() < 0.04:
         # a small descriptor limit (ulimit -n) and more odd neighbours of one kind than that: a reader that leaks one
@@ -105,6 +111,9 @@ def gen(rng):
         argv = ['trash-rm', rng.choice(['*', 'alpha', 'al*', '*a', home + '/*', '/*', '[ab]*', 'mal_*', '*.trashinfo', 'alpha.trashinfo', '*.trash*'])]
     else:
         argv = ['trash-empty'] + rng.choice([[], ['0'], ['1'], ['100'], ['100000'], ['-v'], ['1000'], ['5000'], ['300']])
+    if 'abyss-holds-a-link-to-a-wellformed-payload' in kinds and rng.random() < 0.7:
+        argv = ['trash-empty', rng.choice(['100000', '100000', '5000'])]
+        stdin = ''
     return {
         'world': {'mounts': L['mounts'], 'steps': steps},
         'extra_steps': extra,
